@@ -1,7 +1,7 @@
 (* Select.v -- model of task selection:
      doit/control.py  TaskControl.__init__ (43-75), _check_dep_names (78-95), set_implicit_deps (98-120),
                       add_implicit_task_dep (123-133), _get_wild_tasks (136-142), _process_filter (145-187),
-                      _filter_tasks (190-250), process (253-264)
+                      _filter_tasks (190-255), process (258-269)
      doit/cmd_base.py DoitCmdBase.execute 533-534   (sel_tasks = args or default_tasks)
      doit/cmd_run.py  Run._execute 205-219          (process; --single)
    Definitions only.
@@ -261,20 +261,24 @@ Fixpoint process_filter_legacy (order : list name) (tb : table) (inited sel : li
   end.
 
 (* the Task created for a name given on the command line that only a delayed creator can provide
-   (217 and 242): Task(name, None, loader=loader[, file_dep=[filter_]]) *)
+   (220 and 248): Task(name, None, loader=loader[, file_dep=[filter_]]) *)
 Definition placeholder (l : loader) (fd : list name) : stask :=
   {| s_task_dep := match l_executed l with Some e => [e] | None => [] end;
      s_wild_dep := []; s_setup := []; s_calc_dep := []; s_file_dep := fd; s_targets := [];
      s_has_subtask := false; s_subtask_of := None; s_loader := Some l; s_pos_arg := false; s_opts := [] |}.
 
-(* 222-233: the delayed tasks whose target_regex matches (all of them under --auto-delayed-regex when
-   they have no regex), in the order of tasks.values() *)
-Definition delayed_matched (auto : bool) (tb : table) (f : name) : list (name * loader) :=
+(* 224-239: the delayed tasks whose target_regex matches (all of them under --auto-delayed-regex when
+   they have no regex), in the order of tasks.values().  Skipped: the `_regex_target..` placeholders and
+   (repair 01f48fb, lines 197-199, 221, 232-233) the names in [ph] = `subtask_placeholders`, the placeholder
+   tasks this very call of _filter_tasks created for `basename:sub` names: they share the creator's loader
+   but are not task-creators *)
+Definition delayed_matched (auto : bool) (ph : list name) (tb : table) (f : name) : list (name * loader) :=
   flat_map (fun nt =>
     match s_loader (snd nt) with
     | None => []
     | Some l =>
       if is_regex_name (fst nt) then []
+      else if mem (fst nt) ph then []
       else match l_regex l with
            | Some rx => if re_match rx f then [(fst nt, l)] else []
            | None => if auto then [(fst nt, l)] else []
@@ -284,33 +288,61 @@ Definition delayed_matched (auto : bool) (tb : table) (f : name) : list (name * 
 Definition add_regex_task (f : name) (tb : table) (nl : name * loader) : table :=
   set_task tb (regex_name f (fst nl)) (placeholder (snd nl) [f]).
 
-(* one turn of the loop of _filter_tasks (199-249); None = raise InvalidCommand(not_found=f) *)
-Definition filter_one (auto : bool) (tg : tmap) (tb : table) (f : name) : option (table * list name) :=
-  if has tb f then Some (tb, [f])                                   (* by task name *)
+(* one turn of the loop of _filter_tasks (203-254) in the state (subtask_placeholders, tasks):
+   the new state and what is appended to selected_task; None = raise InvalidCommand(not_found=f) *)
+Definition filter_one (auto : bool) (tg : tmap) (ph : list name) (tb : table) (f : name)
+  : option (list name * table * list name) :=
+  if has tb f then Some (ph, tb, [f])                               (* by task name *)
   else match tg_get tg f with
-  | Some p => Some (tb, [p])                                        (* by target *)
+  | Some p => Some (ph, tb, [p])                                    (* by target *)
   | None =>
     match lookup tb (basename_of f) with
     | Some bt =>                                                    (* sub-task of a delayed creator *)
         match s_loader bt with
         | None => None
-        | Some l => Some (set_task tb f (placeholder l []), [f])
+        | Some l => Some (f :: ph, set_task tb f (placeholder l []), [f])
         end
     | None =>                                                       (* target of a delayed creator *)
-        let dm := delayed_matched auto tb f in
+        let dm := delayed_matched auto ph tb f in
         if is_nil dm then None
-        else Some (fold_left (add_regex_task f) dm tb, map (fun nl => regex_name f (fst nl)) dm)
+        else Some (ph, fold_left (add_regex_task f) dm tb, map (fun nl => regex_name f (fst nl)) dm)
     end
   end.
 
-Fixpoint filter_list (auto : bool) (tg : tmap) (tb : table) (fl : list name) : name + (table * list name) :=
+Fixpoint filter_list (auto : bool) (tg : tmap) (ph : list name) (tb : table) (fl : list name)
+  : name + (list name * table * list name) :=
+  match fl with
+  | [] => inr (ph, tb, [])
+  | f :: r =>
+    match filter_one auto tg ph tb f with
+    | None => inl f
+    | Some (ph1, tb1, s) =>
+      match filter_list auto tg ph1 tb1 r with
+      | inl e => inl e
+      | inr (ph2, tb2, s') => inr (ph2, tb2, s ++ s')
+      end
+    end
+  end.
+
+(* The loop before the repair 01f48fb, kept so that the defect stays stated
+   (C12_subtask_placeholder_legacy_refuted): no `subtask_placeholders`, i.e. the regex matching saw every
+   task with a loader that is not named `_regex_target..` -- also the placeholder of a `basename:sub`
+   name selected earlier on the same command line (it shares the creator's loader): a later element
+   resolved through target_regex / --auto-delayed-regex got a `_regex_target_<f>:<basename:sub>` task
+   as well and loader.basename was overwritten with `basename:sub` (tasks named c:1:1, or a KeyError). *)
+Definition filter_one_legacy (auto : bool) (tg : tmap) (tb : table) (f : name) : option (table * list name) :=
+  match filter_one auto tg [] tb f with
+  | Some (_, tb1, s) => Some (tb1, s)
+  | None => None
+  end.
+Fixpoint filter_list_legacy (auto : bool) (tg : tmap) (tb : table) (fl : list name) : name + (table * list name) :=
   match fl with
   | [] => inr (tb, [])
   | f :: r =>
-    match filter_one auto tg tb f with
+    match filter_one_legacy auto tg tb f with
     | None => inl f
     | Some (tb1, s) =>
-      match filter_list auto tg tb1 r with
+      match filter_list_legacy auto tg tb1 r with
       | inl e => inl e
       | inr (tb2, s') => inr (tb2, s ++ s')
       end
@@ -323,13 +355,13 @@ Definition filter_tasks (auto : bool) (c : ctl) (sel : list name) : perr + (tabl
   match process_filter (c_order c) (c_tasks c) MName pstate0 sel with
   | None => inl PParse
   | Some (fl, _) =>
-    match filter_list auto (c_targets c) (c_tasks c) fl with
+    match filter_list auto (c_targets c) [] (c_tasks c) fl with      (* 199: subtask_placeholders = set() *)
     | inl f => inl (PNotFound f)
-    | inr r => inr r
+    | inr (_, tb1, selected) => inr (tb1, selected)
     end
   end.
 
-(* process (253-264): None = no selection at all *)
+(* process (258-269): None = no selection at all *)
 Definition process (auto : bool) (c : ctl) (sel : option (list name)) : perr + (table * list name) :=
   match sel with
   | Some s => filter_tasks auto c s
